@@ -1,3 +1,35 @@
-From TM Require Import Base Frame.
-Theorem C06_placeholder : fc_value (fc_new 1) = 1.
-Proof. reflexivity. Qed.
+(* C06 -- a client call succeeds only for the response that answers its request.
+   [call_reply] is the reply item (header, decoded result) the call consumed, if it got that far;
+   [req_hdr] the header it stamped on its request (transaction id and unit id for TCP, slave id for
+   RTU).  Quantified over every client state (= every history), request, scripted transport. *)
+From TM Require Import Base Frame Pdu RtuCodec Framed Client ClientProofs.
+
+Theorem C06_every_outcome_is_classified : forall p m st req bg,
+  match call_reply p m st req bg with
+  | Some i => fst (call p m st req bg) = classify p st req i
+  | None => match fst (call p m st req bg) with
+            | CROk _ | CRExc _ | CRHeaderMismatch _ | CRFcMismatch _ _ => False
+            | _ => True
+            end
+  end.
+Proof. exact call_classify. Qed.
+
+(* success (response or inner exception) => same header and numerically the same function code *)
+Theorem C06_success_only_if : forall p m st req bg,
+  is_success (fst (call p m st req bg)) = true ->
+  exists rr, call_reply p m st req bg = Some (req_hdr p st, rr)
+             /\ fc_value (rr_fc rr) = fc_value (req_fc req)
+             /\ fst (call p m st req bg) = match rr with RROk r => CROk r | RRExc e => CRExc (exr_exception e) end.
+Proof. exact call_success_only_if. Qed.
+
+(* another header => header-mismatch protocol error carrying the decoded reply *)
+Theorem C06_header_mismatch : forall p m st req bg rh rr,
+  call_reply p m st req bg = Some (rh, rr) -> rh <> req_hdr p st ->
+  fst (call p m st req bg) = CRHeaderMismatch rr.
+Proof. exact call_header_mismatch. Qed.
+
+(* right header, another function code => function-code-mismatch protocol error carrying it *)
+Theorem C06_function_code_mismatch : forall p m st req bg rr,
+  call_reply p m st req bg = Some (req_hdr p st, rr) -> fc_value (rr_fc rr) <> fc_value (req_fc req) ->
+  fst (call p m st req bg) = CRFcMismatch (req_fc req) rr.
+Proof. exact call_fc_mismatch. Qed.
